@@ -68,11 +68,17 @@ def canon_answer(a):
     return sx.to_sexp((h, us2, tys2) + tuple(a[3:]))
 
 
+FULL5 = [0]      # number of 5-impl programs permuted exhaustively so far (thorough tier: capped for the time budget)
+
+
 def impl_orders(p, rng, thorough, k):
     """variants of p: list of Prog with different item / where-clause orders"""
     n = len(p.impls)
     out = []
-    if thorough and n <= 5:
+    exhaustive = thorough and (n <= 4 or (n == 5 and FULL5[0] < 15))
+    if exhaustive:
+        if n == 5:
+            FULL5[0] += 1
         perms = list(itertools.permutations(range(n)))
     else:
         perms = []
@@ -124,12 +130,12 @@ def gen_families(ctx):
     # the F16 witness and the other corpus programs of the fragment first
     for p, goals in pg.corpus():
         fams.append(Fam(p, goals, [pg.goal_text(g) for g in goals], "corpus"))
-    for _ in range(ctx.n(12, 220)):
+    for _ in range(ctx.n(12, 140)):
         p = pg.gen_program(rng)
         gg = pg.GoalGen(rng, p)
         goals = [g for g in gg.goals(ctx.n(2, 3), ctx.n(2, 3), ctx.n(5, 6)) if not pg.is_floundering_prone(g)]
         fams.append(Fam(p, goals, [pg.goal_text(g) for g in goals], "fragment:" + p.shape))
-    for _ in range(ctx.n(4, 80)):
+    for _ in range(ctx.n(4, 40)):
         p = eg.gen_program(rng)
         gg = eg.IfGoalGen(rng, p)
         goals = [gg.if_goal() for _ in range(3)]
@@ -258,7 +264,7 @@ def run(ctx):
                        "non-trivial = not NoSolution on both sides; distinct by the two program texts, goal and solver")
     ctx.cov["input_distribution"] = {"families": dict(collections.Counter(f.kind for f in allf)), "variants_total": sum(len(f.variants) for f in allf),
                                      "outcomes": dict(stats), "differences": len(diffs), "differences_in_known_class": known_hits, "differences_in_F1_class": f1_hits,
-                                     "all_impl_orders_for_small_programs": thorough}
+                                     "all_impl_orders_for_small_programs": thorough, "exhaustive_5_impl_programs": FULL5[0]}
     ctx.cov["known_class_share"] = round(n_class_pairs / total_slg, 4)
     ctx.cov["known_class_note"] = "share of SLG comparisons whose (program, goal) is in f16_class (whether or not the answers differ); %d of them differed" % known_hits
     ctx.cov["inconclusive"] = stats["not-comparable(limits)"]
